@@ -4,7 +4,7 @@
    property predicates (C02 timestamp, C03, C04, C05, C06, C14, C18) are evaluated on the
    implementation's outcomes and Report structs. *)
 From stdpp Require Import gmap.
-From DS Require Import Base Decimal StreamValue Sort Aggregators RepoConstants Outcome Observe.
+From DS Require Import Base Decimal StreamValue Sort Aggregators RepoConstants Outcome Observe OutcomeCodec PluginOutcome.
 Open Scope Z_scope.
 
 Inductive rep_kind := RepNone | RepOk | RepErr | RepPanic.
@@ -20,6 +20,7 @@ Record round := {
   rd_valid : list (bool * bool);                     (* per observer: (honest?, accepted by ValidateObservation?) *)
   rd_refused : bool;                                 (* a correct node's Observation returned an error *)
   rd_out : res outcome;                              (* Plugin.Outcome, decoded by the implementation's codec *)
+  rd_bytes : option (list Z * list Z);               (* (previous outcome bytes, bytes returned by Plugin.Outcome), small rounds only *)
   rd_rep : rep_kind;                                 (* Plugin.Reports *)
   rd_retirement : option (gmap Z Z);
   rd_reports : list report }.
@@ -221,6 +222,11 @@ Definition eval_round (h : Z -> chandef -> list Z) (cfgs : list cfg) (a : acc) (
   let model := outcome_step h cf seq prev aos in
   let exact := (n_dec <=? 12)%nat in
   let agree := res_outcome_agrees exact model (rd_out rd) in
+  (* byte level: the model of Plugin.Outcome (bytes in, bytes out) predicts exactly the bytes Go returned *)
+  let bytes_agree := match rd_bytes rd with
+                     | Some (pb, ob) => if exact then match plugin_outcome h cf seq pb aos with Ok b => bool_decide (b = ob) | _ => false end
+                                        else true
+                     | None => true end in
   match rd_out rd with
   | Ok next =>
       let obs := decodable (rd_aos rd) in
@@ -308,7 +314,7 @@ Definition eval_round (h : Z -> chandef -> list Z) (cfgs : list cfg) (a : acc) (
                     is_conv := if hand_built then is_conv st else conv1 |} in
       {| a_states := set_nth (a_states a) i st';
          a_pred_last := pred_last1;
-         a_mismatch := a_mismatch a || negb agree || negb rep_agree;
+         a_mismatch := a_mismatch a || negb agree || negb rep_agree || negb bytes_agree;
          a_c02 := a_c02 a || negb (c02_ts_ok cf seq next (rd_aos rd));
          a_c03 := a_c03 a || (if hand_built then false else negb c03);
          a_c04 := a_c04 a || (if hand_built then false else negb (c04_succ && c04_pred));
@@ -345,7 +351,9 @@ Definition hist_eval (cs : list hist_case) :=
   (index_where a_mismatch rs, index_where a_c02 rs, index_where a_c03 rs, index_where a_c04 rs,
    index_where a_c05 rs, index_where a_c06 rs, index_where a_c14 rs, index_where a_c18 rs,
    [sum_nat (map a_rounds rs); sum_nat (map a_reports rs); sum_nat (map a_promotions rs);
-    sum_nat (map a_retirements rs); sum_nat (map a_errors rs)]).
+    sum_nat (map a_retirements rs); sum_nat (map a_errors rs);
+    (* rounds whose Outcome bytes were compared with the byte-level model *)
+    sum_nat (map (fun c => length (filter (fun rd => match rd_bytes rd with Some _ => (length (decodable (rd_aos rd)) <=? 12)%nat | None => false end) (hc_rounds c))) cs)]).
 
 (* debugging aid: per round, which flags are raised after it *)
 Definition flags (a : acc) := (a_mismatch a, a_c02 a, a_c03 a, a_c04 a, (a_c05 a, a_c06 a, a_c14 a, a_c18 a)).
